@@ -236,6 +236,14 @@ func c15Values(tier string) (V []Operand, W []Operand) {
 				FinBig(new(big.Int).Sub(ref.Pow10(L+1), big.NewInt(1)), 0, neg), Fin(10, int32(L-1), neg), Fin(2, int32(L), neg))
 		}
 	}
+	// small coefficients that are heap-backed (what an in-place operation on a once-large coefficient leaves behind):
+	// the storage class must not be taken for a magnitude
+	for _, j := range []DecJ{{Coef: "1", Exp: 1}, {Coef: "10"}, {Coef: "5", Exp: 2}, {Coef: "999", Exp: -1}, {Coef: "100", Exp: -1}, {Coef: "11"}, {Coef: "0", Exp: 3}} {
+		for _, neg := range []bool{false, true} {
+			j.Heap, j.Neg = true, neg
+			V = append(V, j.Op())
+		}
+	}
 	// LIMIT: gaps up to the package limit
 	V = append(V, limitOperands()...)
 	// W: the triple alphabet
@@ -378,8 +386,8 @@ func init() {
 			V, W := c15Values(tier)
 			return fmt.Sprintf("|V| = %d (DENSE + EDGE + zeros + clean/dirty infinities + coinciding digit-count+exponent family + LIMIT) => %d ordered pairs; HUGE: 3 exponent pairs more than 100000 apart x 18 operands with tying digit-count + exponent sums (coefficients of 100001+ digits), all ordered pairs; |W| = %d (finite + all NaN/sNaN signs x payloads + infinities + limits) => %d ordered triples", len(V), len(V)*len(V), len(W), len(W)*len(W)*len(W))
 		},
-		Run:    c15Run,
-		Replay: c15Replay,
+		Run:         c15Run,
+		Replay:      c15Replay,
 		Assumptions: []string{"the order of NaN payloads within one NaN class and sign is not documented; only the order axioms are demanded there"},
 	})
 }
